@@ -32,7 +32,16 @@ AFTER_EFFECT = {"flush", "fsync", "close"}  # the property's quantifier: only th
 
 
 class Injected(OSError):
+    """Plain OSError subclass for most errnos; for EACCES/EPERM the exception is a PermissionError as the
+    interpreter itself would raise (see `injected`)."""
+
+
+class InjectedPermission(PermissionError):
     pass
+
+
+def injected(err, msg):
+    return (InjectedPermission if err in (errno.EACCES, errno.EPERM) else Injected)(err, msg)
 
 
 class FaultAt(ioproxy.NullMonitor):
@@ -45,12 +54,12 @@ class FaultAt(ioproxy.NullMonitor):
     def before(self, ev):
         if ev.k == self.k and self.when == "before":
             self.hit = ev
-            raise Injected(self.err, f"injected {errno.errorcode[self.err]} at {ev!r}")
+            raise injected(self.err, f"injected {errno.errorcode[self.err]} at {ev!r}")
 
     def after(self, ev):
         if ev.k == self.k and self.when == "after":
             self.hit = ev
-            raise Injected(self.err, f"injected {errno.errorcode[self.err]} after {ev!r}")
+            raise injected(self.err, f"injected {errno.errorcode[self.err]} after {ev!r}")
 
 
 def wrap_handle(hub, s):
@@ -338,7 +347,9 @@ def sweep_op(res, s, op, scratch, rng, tier):
         ev = events[k]
         whens = ["before"] + (["after"] if ev.kind in AFTER_EFFECT else [])
         for when in whens:
-            err = rng.choice([errno.ENOSPC, errno.EIO])
+            # disk full, I/O error, and the errors Python maps to OSError subclasses (PermissionError for EACCES/EPERM);
+            # EINTR / EAGAIN are left out: retrying those is legitimate
+            err = rng.choice([errno.ENOSPC, errno.EIO, errno.ENOSPC, errno.EIO, errno.EACCES, errno.EPERM, errno.EROFS, errno.EDQUOT])
             t = s.clone()
             try:
                 mon = FaultAt(k, when, err)
